@@ -127,6 +127,7 @@ func fullPrelude(cvc5 bool) string {
 		sb.WriteString(mapPrelude(ArrSort(SRef, v), SRef, v))
 	}
 	sb.WriteString(mapPrelude(SSetStr, SStr, SBool))
+	sb.WriteString(mapPrelude(ArrSort(SRef, SSetStr), SRef, SSetStr))
 	sb.WriteString("(declare-fun emptyset.Str () Set.Str)\n(assert (forall ((s Str)) (! (not (sel.Set.Str emptyset.Str s)) :pattern ((sel.Set.Str emptyset.Str s)) :qid emptyset)))\n")
 	return oneFormPerLine(sb.String())
 }
